@@ -110,12 +110,16 @@ def make_stub(torch):
             return gout * (-(G @ x + b)), None, None, None
 
     class StubJoint:
-        def __init__(self, params, G, b, thr=None):
-            self.params, self.G, self.b, self.thr = params, G, b, thr
+        """`cpar`: ANOTHER parameter of the same joint (not one the trajectory moves): the linear term is
+        b * c, so the gradient at a position depends on the current value of c"""
+
+        def __init__(self, params, G, b, thr=None, cpar=None):
+            self.params, self.G, self.b, self.thr, self.cpar = params, G, b, thr, cpar
 
         def __call__(self):
             x = torch.cat([p.tensor for p in self.params], -1)
-            return LinGradFn.apply(x, self.G, self.b, self.thr)
+            b = self.b if self.cpar is None else self.b * self.cpar.tensor[0]
+            return LinGradFn.apply(x, self.G, b, self.thr)
 
     return StubJoint
 
@@ -409,8 +413,10 @@ def build_general(torch, spec):
 
     D = torch.float64
     x = Parameter("x", torch.tensor(spec["x"], dtype=D))
+    loc = Parameter("m", torch.tensor(spec["loc"], dtype=D))
+    build_general.last_loc = loc  # another parameter of the joint (not moved by the trajectory)
     dists = [Distribution("dn", torch.distributions.Normal, x,
-                          {"loc": Parameter("m", torch.tensor(spec["loc"], dtype=D)),
+                          {"loc": loc,
                            "scale": Parameter("s", torch.tensor(spec["scale"], dtype=D))})]
     params = [x]
     if spec["z"]:
@@ -498,6 +504,32 @@ def general_run(spec, q=None, p=None, steps=None, eps=None, record=False):
                 continue
             table.append((ent["q"], [v for g in ent["g"] for v in g]))
     return qn, out.tolist(), table, h0, h1, im.tolist()
+
+
+def general_history(spec, new_loc):
+    """two trajectories on the same integrator and the same torchtree objects; the Normal's `loc` (another
+    parameter of the same joint) is changed through Parameter.tensor in between; second trajectory also on
+    brand-new objects at the same state. -> (reused (q,p), fresh (q,p)) or ('EXC', ..)"""
+    torch = _torch()
+    from torchtree.inference.hmc.integrator import LeapfrogIntegrator
+
+    joint, params = build_general(torch, spec)
+    loc = build_general.last_loc
+    mass = tens(torch, spec["mass"])
+    im = 1.0 / mass if spec["kind"] == "diag" else torch.inverse(mass)
+    integ = LeapfrogIntegrator("lf", spec["steps"], spec["eps"])
+    try:
+        p1 = integ(joint, params, tens(torch, spec["p"]), im)
+        q1 = torch.cat([x.tensor.detach() for x in params]).tolist()
+        loc.tensor = tens(torch, new_loc)
+        p2 = integ(joint, params, -p1, im)
+        reused = (torch.cat([x.tensor.detach() for x in params]).tolist(), p2.tolist())
+    except Exception as e:
+        return ("EXC", type(e).__name__ + ": " + str(e)[:80])
+    fr_ = general_run(dict(spec, loc=new_loc), q=q1, p=(-p1).tolist())
+    if fr_[0] == "EXC":
+        return fr_
+    return reused, (fr_[0], fr_[1])
 
 
 def close(a, b, tol=TOL):
@@ -709,6 +741,17 @@ def search_general(ck: Check, rng, count, found):
             f = oracle_jacobian(run, q0, p0, 1e-5, 1e-5, exact=False)
             if f and "error" not in f:
                 found.append(("leapfrog:jacobian", f, {"general": spec}))
+        # history: same integrator and objects, another parameter of the joint changed in between
+        new_loc = [v + rng.choice([-1.0, 0.5, 2.0]) for v in spec["loc"]]
+        gh = general_history(spec, new_loc)
+        if gh[0] != "EXC":
+            ck.bucket("search/general-history")
+            (rq, rp), (fq, fp) = gh
+            if not all(close(a, b, 1e-12) for a, b in zip(rq + rp, fq + fp)):
+                found.append(("leapfrog:history-dependence",
+                              {"oracle": "second trajectory on reused objects after changing another parameter of the "
+                                         "joint vs the same trajectory on fresh objects", "reused": [rq, rp], "fresh": [fq, fp]},
+                              {"general_history": {"spec": spec, "new_loc": new_loc}}))
         # energy error: fixed integration time, step eps, eps/2, eps/4 -> second order means /16
         T, L = spec["eps"] * 4, 4
         errs = []
@@ -737,6 +780,252 @@ def search_exact(ck: Check, cases, found):
             f = oracle_jacobian(run, case["q"], case["p"], 1.0, 1e-9, exact=True)
             if f:
                 found.append(("leapfrog:jacobian", f, {"linear": case}))
+
+
+# --------------------------------------------------------------------------- histories on ONE instance
+def run_history(base, segments):
+    """several trajectories on the SAME LeapfrogIntegrator instance and the same Parameter objects: each
+    starts exactly where the previous one ended; between trajectories ANOTHER parameter `c` of the joint
+    (linear term b*c) may be changed through Parameter.tensor.  For every segment also the same
+    trajectory on brand-new objects (fresh integrator, parameters, joint) at the same state and c.
+    -> list of dict(start_q, p, c, out=(q,p)|('EXC',..), fresh=(q,p)|('EXC',..))"""
+    torch = _torch()
+    from torchtree.core.parameter import Parameter
+    from torchtree.inference.hmc.integrator import LeapfrogIntegrator
+
+    params = make_params(torch, base)
+    cpar = Parameter("c", tens(torch, [1.0]))
+    joint = make_stub(torch)(params, tens(torch, base["G"]), tens(torch, base["b"]), None, cpar)
+    integ = LeapfrogIntegrator("lf", base["steps"], base["eps"])
+    im = tens(torch, base["im"])
+    out = []
+    for seg in segments:
+        if seg["c"] != float(cpar.tensor[0]):
+            cpar.tensor = tens(torch, [seg["c"]])
+        start = torch.cat([x.tensor.detach() for x in params]).tolist()
+        try:
+            pm = integ(joint, params, tens(torch, seg["p"]), im)
+            res = (torch.cat([x.tensor.detach() for x in params]).tolist(), pm.tolist())
+        except Exception as e:
+            res = ("EXC", type(e).__name__ + ": " + str(e)[:80])
+        fresh = impl_integrate(dict(base, q=start, p=seg["p"], b=[v * seg["c"] for v in base["b"]]))
+        out.append({"start_q": start, "p": seg["p"], "c": seg["c"], "out": res, "fresh": fresh})
+        if res[0] == "EXC":
+            break
+    return out
+
+
+def history_case(ck: Check, drv, rng, fails, found):
+    base = gen_case(rng, rng.choice(["mid", "long"]))
+    n = base["n"]
+    base["q"] = [dyad(rng, -3, 3, rng.choice([0, 1])) for _ in range(n)]
+    base["G"] = [[float(rng.randint(-2, 2)) for _ in range(n)] for _ in range(n)]
+    base["b"] = [float(rng.randint(-2, 2)) or 1.0 for _ in range(n)]
+    base["eps"] = rng.choice([1.0, 0.5, 0.5, 0.25])
+    base["steps"] = rng.randint(1, 3)
+    segs, c, prev_p_end = [], 1.0, None
+    # decide the segments step by step with the exact model (it needs the end momentum for reversals)
+    mq = list(base["q"])
+    for k in range(rng.randint(2, 4)):
+        act = rng.choice(["new", "change-c", "change-c", "reverse"]) if k else "new"
+        if act == "change-c":
+            c = float(rng.choice([-2, -1, 0, 2, 3]))
+        p = [-v for v in prev_p_end] if (act == "reverse" and prev_p_end is not None) else \
+            [dyad(rng, -3, 3, rng.choice([0, 1])) for _ in range(n)]
+        cur = dict(base, q=mq, p=p, b=[v * c for v in base["b"]])
+        m = parse_lin(drv.ask(req_lin(cur)))
+        if m is None:
+            ck.mismatch("driver answered bad-op", {"case": cur})
+            return
+        if not budget(cur, m["maxabs"])[0]:
+            break
+        segs.append({"c": c, "p": p, "act": act, "model_q": m["q"], "model_p": m["p"]})
+        mq, prev_p_end = [float(x) for x in m["q"]], [float(x) for x in m["p"]]
+    if len(segs) < 2:
+        ck.bucket("history/skipped-over-budget")
+        return
+    hist = run_history(base, segs)
+    pub = {"base": base, "segments": [{"c": s_["c"], "p": s_["p"]} for s_ in segs]}
+    for k, (sg, h) in enumerate(zip(segs, hist)):
+        key = ("hist", base["kind"], n, base["steps"], base["eps"], k, sg["act"], tuple(sg["p"]), sg["c"])
+        ck.case(key, {"via": "same LeapfrogIntegrator instance, trajectory %d (%s)" % (k + 1, sg["act"]),
+                      "start_q": h["start_q"], "p": sg["p"], "c": sg["c"], "impl": h["out"],
+                      "model_q": [str(x) for x in sg["model_q"]]},
+                bucket=f"exact/history/{sg['act']}")
+        if h["out"][0] == "EXC" or [fr(x) for x in h["out"][0]] != sg["model_q"] or [fr(x) for x in h["out"][1]] != sg["model_p"]:
+            ck.mismatch("trajectory %d on a reused integrator differs from the exact model" % (k + 1),
+                        {"history": pub, "segment": k, "impl": h["out"],
+                         "model": [[str(x) for x in sg["model_q"]], [str(x) for x in sg["model_p"]]]})
+        # oracle on the implementation alone: the same trajectory on brand-new objects
+        if h["out"] != h["fresh"]:
+            found.append(("leapfrog:history-dependence",
+                          {"oracle": "trajectory on a reused integrator/parameters vs the same trajectory on fresh objects",
+                           "segment": k + 1, "reused": h["out"], "fresh": h["fresh"]}, {"history": pub}))
+            return
+        # oracle: reversal on the same instance (target unchanged between the two trajectories)
+        if sg["act"] == "reverse" and k and h["out"][0] != "EXC":
+            want_q, want_p = hist[k - 1]["start_q"], [-v for v in segs[k - 1]["p"]]
+            if h["out"][0] != want_q or h["out"][1] != want_p:
+                found.append(("leapfrog:reversal",
+                              {"oracle": "reversal on the same integrator instance", "segment": k + 1,
+                               "err": max(abs(a - b) for a, b in zip(h["out"][0] + h["out"][1], want_q + want_p))},
+                              {"history": pub}))
+                return
+
+
+def run_op_history(base, segments):
+    """several step() calls on the SAME HMCOperator (same integrator, same Parameter objects), each followed by
+    accept() or reject(); between steps another parameter `c` of the joint may change.  Each step also on a
+    brand-new operator at the same state and c (same scripted momenta)."""
+    torch = _torch()
+    from torchtree.core.parameter import Parameter
+    from torchtree.inference.hmc.integrator import LeapfrogIntegrator
+    from torchtree.inference.hmc.operator import HMCOperator
+
+    def build(q, c):
+        params = make_params(torch, dict(base, q=q))
+        cpar = Parameter("c", tens(torch, [c]))
+        thr = base.get("thr")
+        joint = make_stub(torch)(params, tens(torch, base["G"]), tens(torch, base["b"]),
+                                 None if thr is None else float(thr), cpar)
+        integ = IntegProxy(LeapfrogIntegrator("lf", base["steps"], base["eps"]))
+        op = HMCOperator("hmc", joint, params, integ, Parameter("mass", tens(torch, base["mass"])), 1.0, 0.8, [],
+                         disable_adaptation=True)
+        return op, params, cpar, integ
+
+    def one(op, params, integ, momenta):
+        n0 = len(integ.returned)
+        try:
+            with Scripted(torch, momenta) as sc:
+                hr = float(op.step())
+        except Exception as e:
+            return ("EXC", type(e).__name__ + ": " + str(e)[:80])
+        return {"q": torch.cat([x.tensor.detach() for x in params]).tolist(), "hr": hr, "used": len(sc.seen),
+                "returned": integ.returned[n0:]}
+
+    op, params, cpar, integ = build(base["q"], 1.0)
+    out = []
+    for seg in segments:
+        if seg["c"] != float(cpar.tensor[0]):
+            cpar.tensor = tens(torch, [seg["c"]])
+        start = torch.cat([x.tensor.detach() for x in params]).tolist()
+        res = one(op, params, integ, seg["momenta"])
+        fop, fparams, _c, finteg = build(start, seg["c"])
+        fresh = one(fop, fparams, finteg, seg["momenta"])
+        out.append({"start_q": start, "res": res, "fresh": fresh})
+        if not isinstance(res, dict):
+            break
+        try:
+            op.accept() if seg["decision"] == "accept" else op.reject()
+        except Exception as e:
+            out[-1]["res"] = ("EXC", type(e).__name__)
+            break
+        out[-1]["after_decision"] = torch.cat([x.tensor.detach() for x in params]).tolist()
+    return out
+
+
+def op_history_case(ck: Check, drv, rng, fails, found):
+    base = gen_case(rng, rng.choice(["mid", "long"]))
+    n = base["n"]
+    base["kind"] = rng.choice(["diag", "dense"])
+    base["q"] = [dyad(rng, -2, 2, rng.choice([0, 1])) for _ in range(n)]
+    base["G"] = [[float(rng.randint(-2, 2)) for _ in range(n)] for _ in range(n)]
+    base["b"] = [float(rng.randint(-2, 2)) or 1.0 for _ in range(n)]
+    base["eps"] = rng.choice([1.0, 0.5, 0.5, 0.25])
+    base["steps"] = rng.randint(1, 2)
+    base["mass"] = gen_mass(rng, base["kind"], n)
+    torch = _torch()
+    mt = tens(torch, base["mass"])
+    base["im"] = (1.0 / mt if mt.dim() == 1 else torch.inverse(mt)).tolist()
+    use_nan = rng.random() < 0.6
+    segs, c, mq = [], 1.0, list(base["q"])
+    if use_nan:
+        base["thr"] = mq[0] + rng.choice([0.5, 1.0, 2.0])
+    for k in range(rng.randint(2, 4)):
+        if k and rng.random() < 0.6:
+            c = float(rng.choice([-2, -1, 0, 2, 3]))
+        momenta = [[dyad(rng, -3, 3, 1) for _ in range(n)] for _ in range(11)]
+        if use_nan:
+            # the first few draws push q_0 up (likely into the nan region), a later one pulls it down
+            kf = rng.randint(1, 3)
+            for i in range(11):
+                momenta[i][0] = (8.0 if i < kf else -abs(momenta[i][0]) - 1.0)
+        w = ["hmc", "rat", base["kind"], str(n), str(base["steps"]), rs(base["eps"])]
+        w += [rs(v) for v in flat(base["im"])] + [rs(v) for v in mq]
+        w += [rs(v) for v in flat(base["G"])] + [rs(v * c) for v in base["b"]]
+        w += [rs(base["thr"]) if use_nan else "1000000000", "10", "11"] + [rs(v) for mom in momenta for v in mom]
+        rep = drv.ask(" ".join(w))
+        if rep == "bad-op":
+            ck.mismatch("driver bad-op (hmc)", {"base": base})
+            return
+        okb = True
+        for mom in momenta[:10]:
+            c2 = dict(base, q=mq, p=mom, b=[v * c for v in base["b"]])
+            m = parse_lin(drv.ask(req_lin(c2)))
+            a_, b_ = budget(c2, m["maxabs"])
+            okb = okb and a_ and b_
+        if not okb:
+            break
+        decision = rng.choice(["accept", "reject"])
+        if rep.startswith("inf"):
+            mq2, mh = [Fraction(x) for x in rep.split()[1:]], None
+        else:
+            body = rep[3:].split(";")
+            mq2, mh = [Fraction(x) for x in body[0].split()], Fraction(body[1].strip())
+        segs.append({"c": c, "momenta": momenta, "decision": decision, "model_q": mq2, "model_hr": mh, "start": list(mq)})
+        if decision == "accept":
+            mq = [float(x) for x in mq2]
+    if len(segs) < 2:
+        ck.bucket("history/operator-skipped-over-budget")
+        return
+    hist = run_op_history(base, segs)
+    pub = {"base": base, "segments": [{"c": s_["c"], "momenta": s_["momenta"], "decision": s_["decision"]} for s_ in segs]}
+    for k, (sg, h) in enumerate(zip(segs, hist)):
+        r = h["res"]
+        used = r["used"] if isinstance(r, dict) else None
+        ck.case(("ophist", base["kind"], n, base["steps"], base["eps"], k, sg["c"], tuple(sg["momenta"][0]), sg["decision"]),
+                {"via": "same HMCOperator instance, step %d then %s" % (k + 1, sg["decision"]), "start_q": h["start_q"],
+                 "c": sg["c"], "nan_above": base.get("thr"), "impl": r if not isinstance(r, dict) else
+                 {"q": r["q"], "hastings": r["hr"], "momentum_draws_used": used}},
+                nontrivial=isinstance(r, dict) and not math.isinf(r["hr"]),
+                bucket="exact/op-history/" + ("raised" if not isinstance(r, dict) else
+                                              "all-trials-fail" if math.isinf(r["hr"]) else
+                                              f"trials-used={used}"))
+        bad = []
+        if not isinstance(r, dict):
+            bad.append("step raised: " + r[1])
+        else:
+            if [fr(v) for v in r["q"]] != sg["model_q"]:
+                bad.append("positions after step")
+            if sg["model_hr"] is None:
+                if not (math.isinf(r["hr"]) and r["hr"] > 0):
+                    bad.append("model: all trials fail (inf)")
+            elif math.isinf(r["hr"]) or fr(r["hr"]) != sg["model_hr"]:
+                bad.append(f"Hastings term (model {sg['model_hr']}, impl {r['hr']})")
+            want_after = r["q"] if sg["decision"] == "accept" else h["start_q"]
+            if h.get("after_decision") != want_after:
+                bad.append("positions after accept/reject")
+            # oracles on the implementation alone
+            if not math.isinf(r["hr"]) and r["returned"]:
+                p_used = sg["momenta"][used - 1]
+                if fr(r["hr"]) != kin_exact(base["im"], p_used) - kin_exact(base["im"], r["returned"][-1]):
+                    found.append(("hmc:hastings-not-kinetic",
+                                  {"oracle": "returned value vs K(p_used)-K(p_end), p_used = the momentum draw of the "
+                                             "trial that succeeded", "segment": k + 1, "draws_used": used,
+                                   "returned": r["hr"]}, {"op_history": pub}))
+                    return
+            fq = h["fresh"]
+            if not isinstance(fq, dict) or fq["q"] != r["q"] or fq["hr"] != r["hr"] and not (math.isinf(fq["hr"]) and math.isinf(r["hr"])):
+                found.append(("hmc:history-dependence",
+                              {"oracle": "step on a reused operator vs the same step on a fresh operator",
+                               "segment": k + 1, "reused": {"q": r["q"], "hr": r["hr"]},
+                               "fresh": fq if not isinstance(fq, dict) else {"q": fq["q"], "hr": fq["hr"]}},
+                              {"op_history": pub}))
+                return
+        if bad:
+            ck.mismatch("step %d on a reused HMCOperator differs from the exact model: %s" % (k + 1, "; ".join(bad)),
+                        {"op_history": pub, "segment": k})
+            return
 
 
 def run(ck: Check):
@@ -768,6 +1057,7 @@ def run(ck: Check):
     n_op = 800 if thorough else 150
     n_gen = 500 if thorough else 60
     n_search = 150 if thorough else 20
+    n_hist = 400 if thorough else 80
     ran = []
     try:
         corpus = sorted((VERIF / "corpus" / "C16").glob("*.json")) if (VERIF / "corpus" / "C16").exists() else []
@@ -783,6 +1073,9 @@ def run(ck: Check):
                     ran.append(case)
             for i in range(n_op):
                 operator_case(ck, drv, rng, fails, with_nan=(i % 3 == 2))
+            for i in range(n_hist):
+                history_case(ck, drv, rng, fails, found)
+                op_history_case(ck, drv, rng, fails, found)
             for i in range(n_gen):
                 general_case(ck, drv, rng, gviol)
     finally:
@@ -851,6 +1144,34 @@ def replay(path: str) -> int:
             bad = {"errors": errs} if not errs[2] <= errs[0] / 8.0 else None
         else:
             bad = oracle_reversal(run_, q0, p0, 1e-8)
+    elif "history" in inp:
+        h = inp["history"]
+        for k, seg in enumerate(run_history(h["base"], h["segments"])):
+            same = seg["out"] == seg["fresh"]
+            print(f"trajectory {k + 1}: c={seg['c']} start={seg['start_q']} reused-> {seg['out']}  fresh-> {seg['fresh']}",
+                  "" if same else "  <-- DIFFER")
+            if not same:
+                bad = {"segment": k + 1}
+    elif "op_history" in inp:
+        h = inp["op_history"]
+        for k, (sg, seg) in enumerate(zip(h["segments"], run_op_history(h["base"], h["segments"]))):
+            r, f_ = seg["res"], seg["fresh"]
+            print(f"step {k + 1}: c={sg['c']} start={seg['start_q']} reused-> {r if not isinstance(r, dict) else (r['q'], r['hr'], r['used'])}"
+                  f"  fresh-> {f_ if not isinstance(f_, dict) else (f_['q'], f_['hr'], f_['used'])}")
+            if isinstance(r, dict) and not math.isinf(r["hr"]) and r["returned"]:
+                want = kin_exact(h["base"]["im"], sg["momenta"][r["used"] - 1]) - kin_exact(h["base"]["im"], r["returned"][-1])
+                print("   K(p_used)-K(p_end) =", float(want), " returned =", r["hr"])
+                if fr(r["hr"]) != want:
+                    bad = {"segment": k + 1, "hr": r["hr"]}
+            if isinstance(r, dict) != isinstance(f_, dict) or (isinstance(r, dict) and (r["q"] != f_["q"] or (r["hr"] != f_["hr"] and not (math.isinf(r["hr"]) and math.isinf(f_["hr"]))))):
+                bad = bad or {"segment": k + 1, "history-dependence": True}
+    elif "general_history" in inp:
+        g = inp["general_history"]
+        gh = general_history(g["spec"], g["new_loc"])
+        print(gh)
+        if gh[0] != "EXC":
+            (rq, rp), (fq, fp) = gh
+            bad = None if all(close(a, b, 1e-12) for a, b in zip(rq + rp, fq + fp)) else {"reused": [rq, rp], "fresh": [fq, fp]}
     elif "operator" in inp:
         c = inp["operator"]
         res = impl_operator(c, c["momenta"], c.get("thr"))
